@@ -1092,6 +1092,29 @@ class Engine:
                     self.events.append(Event("panic", c, args, None, site, extra="byte index is not a char boundary / out of range"))
                     raise EndPath("panic", "string slice " + c.split("::")[-1])
                 return self.conv("slice", self.peel(s_))
+        mv = re.match(r"<(?:std::vec::)?(?:Vec<.*>|\[.*\]) as (?:std::ops::)?Index(?:Mut)?<(?:std::ops::)?(RangeTo|Range|RangeFrom|RangeFull|RangeInclusive|RangeToInclusive)<usize>>>::index(?:_mut)?$", c)
+        if mv and len(args) == 2:
+            s_, rg = args[0], self.peel(args[1])
+            ln = self.len_of(s_)
+            conds = None
+            if isinstance(rg, Agg):
+                f = rg.fields
+                if mv.group(1) == "RangeTo":
+                    conds = [z3.ULE(self.to_z3(f[0], "usize"), ln)]
+                elif mv.group(1) == "Range":
+                    a_, e_ = self.to_z3(f[0], "usize"), self.to_z3(f[1], "usize")
+                    conds = [z3.ULE(a_, e_), z3.ULE(e_, ln)]
+                elif mv.group(1) == "RangeFrom":
+                    conds = [z3.ULE(self.to_z3(f[0], "usize"), ln)]
+                elif mv.group(1) == "RangeToInclusive":
+                    conds = [z3.ULT(self.to_z3(f[0], "usize"), ln)]
+            if conds:
+                ok = z3.And(conds)
+                lab = self.choose([("range-ok", ok), ("range-panic", z3.Not(ok))])
+                if lab == "range-panic":
+                    self.events.append(Event("panic", c, args, None, site, extra="range out of bounds"))
+                    raise EndPath("panic", "slice range " + c.split("::")[-1])
+                return self.conv("subslice", self.peel(s_))
         if re.search(r"String::truncate$", c) and len(args) == 2:
             n = self.to_z3(args[1], "usize")
             ok = z3.Or(z3.UGT(n, self.len_of(args[0])), self.boundary(args[0], n))
